@@ -9,6 +9,8 @@ import (
 	"regexp"
 	"sort"
 	"strings"
+
+	"golang.org/x/tools/go/ssa"
 )
 
 // runRenames lists, for every function under contract, the local variables (not parameters, not results)
@@ -30,7 +32,8 @@ func runRenames(repo, verif string) int {
 		Offsets []int    `json:"offsets"`
 		Props   []string `json:"props"`
 		Type    string   `json:"type"`
-		Ord     int      `json:"ord"` // position among the function's variables of that type, in declaration order
+		Ord     int      `json:"ord"`   // position among the function's variables of that type, in declaration order
+		Param   int      `json:"param"` // index among the function's parameters (receiver first), -1 for other variables
 	}
 	var out []item
 	for _, name := range P.spec.FuncOrder {
@@ -151,7 +154,7 @@ func runRenames(repo, verif string) int {
 				})
 			}
 			sort.Ints(offs)
-			out = append(out, item{Func: name, Local: o.Name(), File: file, Offsets: offs, Props: sp.Props, Type: types.TypeString(o.Type(), nil), Ord: ordOf(o)})
+			out = append(out, item{Func: name, Local: o.Name(), File: file, Offsets: offs, Props: sp.Props, Type: types.TypeString(o.Type(), nil), Ord: ordOf(o), Param: paramIndex(fn, o)})
 		}
 	}
 	sort.Slice(out, func(i, j int) bool {
@@ -163,4 +166,13 @@ func runRenames(repo, verif string) int {
 	b, _ := json.MarshalIndent(out, "", " ")
 	fmt.Println(string(b))
 	return 0
+}
+
+func paramIndex(fn *ssa.Function, o types.Object) int {
+	for i, p := range fn.Params {
+		if p.Object() == o {
+			return i
+		}
+	}
+	return -1
 }
